@@ -135,6 +135,79 @@ theorem C08_weather (numSteps size : Nat) :
     refine ⟨_, by simp [scheduleWeather, this]; rfl, by simp, ?_⟩
     intro i hi; simp [hi]
 
+/-- `Config::create_schedules`: which schedule every feature gets. Lethal temperature fires in the
+    steps containing day 1 of its month, the survival rate in the steps containing its month/day
+    (of some year; steps shorter than a year), mortality / spread rate / quarantine / output follow
+    their frequency names, disabled features get no schedule, and the weather table is `i mod size`. -/
+theorem C08_config_wiring (c : CalCfg) (s : Schedules) (h : createSchedules c = .ok s) :
+    ∃ sc : Scheduler, Scheduler.make c.start c.end_ c.unit c.n = .ok sc ∧ s.steps = sc.steps ∧
+      s.spread = scheduleSpread sc.steps c.seasonStart c.seasonEnd ∧
+      scheduleFromString sc c.outFreq c.outN = .ok s.output ∧
+      s.lethal = (if c.useLethal then some (scheduleYearly sc.steps c.lethalMonth 1) else none) ∧
+      s.survival = (if c.useSurvival then some (scheduleYearly sc.steps c.survMonth c.survDay) else none) ∧
+      (c.useMortality = true → ∃ m, scheduleFromString sc c.mortFreq c.mortN = .ok m ∧ s.mortality = some m) ∧
+      (c.useMortality = false → s.mortality = none) ∧
+      (c.useRates = true → ∃ m, scheduleFromString sc c.ratesFreq c.ratesN = .ok m ∧ s.rates = some m) ∧
+      (c.useRates = false → s.rates = none) ∧
+      (c.useQuarantine = true → ∃ m, scheduleFromString sc c.quarFreq c.quarN = .ok m ∧ s.quarantine = some m) ∧
+      (c.useQuarantine = false → s.quarantine = none) ∧
+      (c.weatherSize = 0 → s.weather = none) := by
+  unfold createSchedules at h
+  simp only [bind, Except.bind] at h
+  cases h0 : Scheduler.make c.start c.end_ c.unit c.n with
+  | error e => rw [h0] at h; cases h
+  | ok sc =>
+    rw [h0] at h
+    simp only at h
+    cases h1 : scheduleFromString sc c.outFreq c.outN with
+    | error e => rw [h1] at h; cases h
+    | ok out =>
+      rw [h1] at h; simp only at h
+      cases h2 : optSched c.useMortality (scheduleFromString sc c.mortFreq c.mortN) with
+      | error e => rw [h2] at h; cases h
+      | ok mo =>
+        rw [h2] at h; simp only at h
+        cases h3 : optSched c.useRates (scheduleFromString sc c.ratesFreq c.ratesN) with
+        | error e => rw [h3] at h; cases h
+        | ok ra =>
+          rw [h3] at h; simp only at h
+          cases h4 : optSched c.useQuarantine (scheduleFromString sc c.quarFreq c.quarN) with
+          | error e => rw [h4] at h; cases h
+          | ok qu =>
+            rw [h4] at h; simp only at h
+            have hopt : ∀ (use : Bool) (x : Except ErrKind (List Bool)) (r : Option (List Bool)),
+                optSched use x = .ok r →
+                (use = true → ∃ m, x = .ok m ∧ r = some m) ∧ (use = false → r = none) := by
+              intro use x r hr
+              unfold optSched at hr
+              cases use with
+              | true =>
+                simp only [if_true] at hr
+                cases x with
+                | error e => simp [Except.map] at hr
+                | ok m =>
+                  simp only [Except.map, Except.ok.injEq] at hr
+                  exact ⟨fun _ => ⟨m, rfl, hr.symm⟩, fun hh => Bool.noConfusion hh⟩
+              | false =>
+                have hr' : none = r := by simpa using hr
+                exact ⟨fun hh => Bool.noConfusion hh, fun _ => hr'.symm⟩
+            obtain ⟨m1, m2⟩ := hopt _ _ _ h2
+            obtain ⟨r1, r2⟩ := hopt _ _ _ h3
+            obtain ⟨q1, q2⟩ := hopt _ _ _ h4
+            by_cases hw : c.weatherSize ≠ 0
+            · rw [if_pos hw] at h
+              cases h5 : scheduleWeather sc.steps.length c.weatherSize with
+              | error e => rw [h5] at h; simp [Except.map] at h
+              | ok w =>
+                rw [h5] at h
+                simp only [Except.map, pure, Except.pure, Except.ok.injEq] at h
+                subst h
+                exact ⟨sc, rfl, rfl, rfl, h1, rfl, rfl, m1, m2, r1, r2, q1, q2, fun hz => absurd hz hw⟩
+            · rw [if_neg hw] at h
+              simp only [pure, Except.pure, Except.ok.injEq] at h
+              subst h
+              exact ⟨sc, rfl, rfl, rfl, h1, rfl, rfl, m1, m2, r1, r2, q1, q2, fun _ => rfl⟩
+
 /-- Non-vacuity: a two-week step straddling the year boundary is well-formed, shorter than a
     year, and both the yearly (1 January) and the end-of-year schedule fire in it. -/
 example : let st : Step := ⟨⟨2019, 12, 24⟩, ⟨2020, 1, 7⟩⟩
